@@ -631,7 +631,7 @@ def _gperf_words(prog, file):
 
 
 def run(prog, rep, tier, snap):
-    rep.rule("R06.1", "write-close-rename protocol in every function that renames into the spool", 20)
+    rep.rule("R06.1", "write-close-rename protocol in every function that renames into the spool", 12)
     r06_1(prog, rep)
     rep.rule("R06.2", "who may create/truncate/unlink/rename files of the spool", 10)
     n = r06_2(prog, rep)
